@@ -396,7 +396,7 @@ pub fn run(sc: &Scenario) -> RunOutput {
             done_notify: Arc::new(tokio::sync::Notify::new()),
         };
         let mut expected_tasks = 0usize;
-        let single = sc.connects.len() == 1 && sc.accepts.len() <= 1;
+        let single = sc.connects.len() <= 1 && sc.accepts.len() <= 1;
 
         // Connectors.
         for (k, c) in sc.connects.iter().enumerate() {
